@@ -1,4 +1,4 @@
-CONSTANTS NK = 5  NM = 2  MaxPasses = 2  Mode = "prod"  PruneNoop = FALSE
+CONSTANTS NK = 5  NM = 2  MaxPasses = 2  Mode = "prod"  PruneNoop = FALSE  WithPairs = TRUE
           Cases <- ProdCasesAll  Shapes <- NoShapes  Coins <- AllCoins  HashTypes <- StdHashTypes
 SPECIFICATION RSpec
 CHECK_DEADLOCK FALSE
